@@ -1,6 +1,7 @@
 """C06 -- tolerant mode: total, equals strict on valid input, keeps pre-error content."""
 from hypothesis import strategies as st
 
+import itertools
 from .. import soups, px, contexts, monitor, docgrammar
 from ..alphabets import SIG, SIG_SMALL, EVERYTYPE_TOKENS, STRUCTURAL
 from ..engine import exc_key, exc_detail, ddmin, hyp_run, Result
@@ -55,6 +56,7 @@ def plan(tier, seed):
     shards += [('soup', 'every-nounknown', 'EVERY', 2 if tier == 'quick' else 3, k)
                for k in range(NSHARDS)]
     shards += [('vsoup', 2 if tier == 'quick' else 3, k) for k in range(NSHARDS)]
+    shards += [('prefixerr', c, k) for c in sorted(PREFIX_ITEMS) for k in range(NSHARDS)]
     shards += [('rand', nrand // NSHARDS, seed * 1000 + k) for k in range(NSHARDS)]
     shards += [('docs', ndocs // NSHARDS, seed * 1000 + 100 + k) for k in range(NSHARDS)]
     shards += [('comp', ncomp // NSHARDS, seed * 1000 + 200 + k) for k in range(NSHARDS)]
@@ -66,7 +68,8 @@ def plan(tier, seed):
             'required_classes': ['strict-ok', 'recovery', 'comp:prefix-checked',
                                  'comp:nested-opener', 'stray:}', 'stray:\\end{x}',
                                  'stray:\\)', 'stray:\\]', 'unclosed:checked',
-                                 'inner-document:checked', 'variants']}
+                                 'inner-document:checked', 'variants', 'prefix-kept-check',
+                                 'prefix-errors:default', 'prefix-errors:options']}
 
 
 def tolerant(s, ctxname):
@@ -170,6 +173,27 @@ def check_source(s, ctxname, res, case, count_nontriv=True):
             res.label('error-at:' + where)
         what = (getattr(sv, 'error_type_info', None) or {}).get('what', '?')
         res.label('recovery-what:' + str(what), case)
+        toks = case.get('tokens')
+        if toks and len(toks) >= 2:
+            # pre-error content, generically: the longest prefix (at the generator's token
+            # boundaries) that parses strictly has been read completely before anything goes
+            # wrong; its top-level nodes except the last two open the tolerant result unchanged
+            # (the last node may still grow, and where the one before it ends may have been
+            # decided by looking at the first -- possibly still growing -- token of the last)
+            for k in range(len(toks) - 1, 0, -1):
+                pk, pre = strict(''.join(toks[:k]), ctxname)
+                if pk == 'ok':
+                    if pre is not None and len(pre) >= 3:
+                        want = [dump(n) for n in list(pre)[:-2]]
+                        got = [dump(n) for n in list(tv)[:len(want)]]
+                        res.label('prefix-kept-check')
+                        if got != want:
+                            res.fail('c06:valid-prefix-not-kept', 'the prefix %r parses strictly to %d '
+                                     'top-level nodes; the tolerant result of %r does not start with '
+                                     'the first %d of them: %s vs %s'
+                                     % (''.join(toks[:k]), len(pre), s, len(want), str(got)[:200],
+                                        str(want)[:200]), case)
+                    break
         if count_nontriv:
             res.nontriv(s)
     return tv
@@ -285,6 +309,41 @@ def composite_strategy():
     return comp()
 
 
+# complete constructs per context (anything that does not parse strictly just yields no check),
+# things that break a document, and what may follow
+PREFIX_ITEMS = {
+    'default': ['a', ' ', '{b}', '$x$', '\\alpha', '\\textbf{c}', '\\\\', '~', '%c\n',
+                '\\begin{x}d\\end{x}', '\\sqrt[3]{e}', '\\item', '\n\n', '\\verb|v|', '\\[y\\]'],
+    'every': ['a', '\\mstar*', '\\mopt[o]', '\\mmand{m}', '\\mm b', '\\mo[o]', '\\ms*', '\\mt+',
+              '\\mr<r>', '\\md<d>', '\\mv|v|', '\\mvb{v}', '\\mcombo*[o]{m}', '\\mmath{x}',
+              '\\mtext{t}', '\\begin{eenv}[o]{m}b\\end{eenv}', '+', '\\me^{u}', '\\many(a)', ' '],
+    'extra': ['\\mcomma{a,b}', '\\mchars{c}', '\\mtack\\ta{x}', '\\mempty', '\\me_a', '\\msn x',
+              '\\begin{vcode}v\\end{vcode}', '\\many[b]', 'a', '{g}', ' ', '\\mcommak{k=v,w}'],
+    'options': ['\\ofull{a}', '\\onosp{a}', '\\oonosp[o]{a}', '\\omark+{a}', '\\omarkb++{c}',
+                '\\omarkg+{d}', '\\osn e', '\\orr(a)', '\\odd(a)', '\\ott!', '\\oee_a',
+                '\\oom{a}[b]', '\\olegacy*[a]{b}', '\\olegns[a]{b}',
+                '\\begin{oenv}*(a){b}c\\end{oenv}', '\\osns{x}*', '\\;*', 'a', ' '],
+}
+PREFIX_BREAKERS = ['}', '\\end{x}', '\\)', '\\]', '{', '$', '\\begin{x}', '\\textbf', '\\verb|', ']']
+PREFIX_TAILS = ['', 'z', ' {y}']
+
+
+def run_prefix_errors(ctxname, k, res):
+    import zlib
+    items = PREFIX_ITEMS[ctxname]
+    i = 0
+    for w in itertools.product(items, repeat=3):
+        for b in PREFIX_BREAKERS:
+            i += 1
+            if i % NSHARDS != k:
+                continue
+            t = PREFIX_TAILS[zlib.crc32((''.join(w) + b).encode('utf-8')) % len(PREFIX_TAILS)]
+            toks = list(w) + [b] + ([t] if t else [])
+            check_source(''.join(toks), ctxname, res,
+                         {'kind': 'soup', 'ctx': ctxname, 'tokens': toks}, count_nontriv=False)
+    res.label('prefix-errors:' + ctxname)
+
+
 def run_shard(shard, res):
     kind = shard[0]
     if kind == 'soup':
@@ -293,6 +352,8 @@ def run_shard(shard, res):
             check_source(''.join(toks), ctxname, res,
                          {'kind': 'soup', 'ctx': ctxname, 'tokens': list(toks)})
         res.exhaustive = True
+    elif kind == 'prefixerr':
+        run_prefix_errors(shard[1], shard[2], res)
     elif kind == 'vsoup':
         _, L, k = shard
         for toks in soups.enum_tokens(SIG, L, k, NSHARDS):
@@ -301,10 +362,16 @@ def run_shard(shard, res):
     elif kind == 'rand':
         _, n, seed = shard
 
+        # random long soups, a quarter of the shards each under the default, every-type, extra
+        # and options contexts (each over its own alphabet)
+        ctxname, alpha = [('default', 'SIG'), ('every', 'EVERY'), ('extra', 'EXTRA'),
+                          ('options', 'OPTIONS')][seed % 4]
+
         def one(toks):
-            check_source(''.join(toks), 'default', res,
-                         {'kind': 'soup', 'ctx': 'default', 'tokens': list(toks)})
-        hyp_run(soups.soup_strategy(SIG, 4, 40), one, n, seed)
+            check_source(''.join(toks), ctxname, res,
+                         {'kind': 'soup', 'ctx': ctxname, 'tokens': list(toks)})
+        hyp_run(soups.soup_strategy(ALPHAS[alpha], 4, 40 if ctxname == 'default' else 12), one, n,
+                seed)
     elif kind == 'docs':
         _, n, seed = shard
 
